@@ -16,6 +16,13 @@
 #include <amgcl/mpi/relaxation/spai0.hpp>
 #include <amgcl/mpi/direct_solver/skyline_lu.hpp>
 #include <amgcl/mpi/partition/merge.hpp>
+#include <amgcl/mpi/subdomain_deflation.hpp>
+#include <amgcl/preconditioner/runtime.hpp>
+#include <amgcl/mpi/block_preconditioner.hpp>
+#include <amgcl/relaxation/as_preconditioner.hpp>
+#include <amgcl/relaxation/spai0.hpp>
+#include <amgcl/amg.hpp>
+#include <amgcl/coarsening/smoothed_aggregation.hpp>
 #include <boost/property_tree/ptree.hpp>
 #include <Eigen/Dense>
 #include <iostream>
@@ -237,7 +244,7 @@ static void extract(const DM &M, int rank, Eigen::MatrixXd &out) {
 }
 
 template <class Coarsening>
-static std::string hier_once(const Sys &s, const Part &p, bool repart, const Env &e, int coarse_enough) {
+static std::string hier_once(const Sys &s, const Part &p, bool repart, const Env &e, int coarse_enough, int nullcols = 0) {
     typedef mpi::amg<B, Coarsening, mpi::relaxation::spai0<B>, mpi::direct::skyline_lu<double>, mpi::partition::merge<B>> AMG;
     int k = (int)p.size() - 1;
     HierOut<Coarsening> o; o.exc.assign(k, "");
@@ -254,6 +261,13 @@ static std::string hier_once(const Sys &s, const Part &p, bool repart, const Env
                 typename AMG::params prm;
                 prm.coarse_enough = coarse_enough;
                 prm.coarsening.aggr.eps_strong = 0;        // every stored connection is strong: the partition laws become checkable from P alone
+                if (nullcols) {
+                    // near-null space B = [1, i, i^2 ...] in the global row index (row-major local slice)
+                    prm.coarsening.aggr.nullspace.cols = nullcols;
+                    prm.coarsening.aggr.nullspace.B.resize((size_t)nl * nullcols);
+                    for (int i = 0; i < nl; ++i) for (int c = 0; c < nullcols; ++c) prm.coarsening.aggr.nullspace.B[(size_t)i * nullcols + c] = std::pow((double)(rb + i) / s.n, c);
+                    prm.max_levels = 2;
+                }
                 if (repart) { prm.repart.enable = true; prm.repart.min_per_proc = 4; prm.repart.shrink_ratio = 2; }
                 AMG amg(comm, std::make_tuple((size_t)nl, ptr, col, val), prm);
                 if (r == 0) { o.nlev = (int)amg.levels.size(); o.A.resize(o.nlev); o.P.resize(o.nlev); o.R.resize(o.nlev); }
@@ -298,9 +312,26 @@ static std::string hier_once(const Sys &s, const Part &p, bool repart, const Env
         if (o.P[l].size() == 0) break;
         const Eigen::MatrixXd &P = o.P[l], &R = o.R[l];
         if (P.rows() != Aprev.rows()) return vf::KS() << "level " << l << ": P has " << P.rows() << " rows, A has " << Aprev.rows();
-        if (!(P.cols() < P.rows())) return vf::KS() << "level " << l << ": coarse size " << P.cols() << " not smaller than fine size " << P.rows();
+        if (!nullcols && !(P.cols() < P.rows())) return vf::KS() << "level " << l << ": coarse size " << P.cols() << " not smaller than fine size " << P.rows();
         if ((R - P.transpose()).cwiseAbs().maxCoeff() != 0) return vf::KS() << "level " << l << ": R is not the transpose of P";
-        if (plain) {
+        if (nullcols && l == 0 && plain) {
+            // near-null space reproduced across rank boundaries: every column of B lies in the range of P on the aggregated rows
+            Eigen::MatrixXd Bm(P.rows(), nullcols);
+            for (int i = 0; i < P.rows(); ++i) for (int c = 0; c < nullcols; ++c) Bm(i, c) = std::pow((double)i / s.n, c);
+            Eigen::MatrixXd Y = P.colPivHouseholderQr().solve(Bm);
+            Eigen::MatrixXd Rs = P * Y - Bm;
+            for (int i = 0; i < P.rows(); ++i) {
+                bool agg = P.row(i).cwiseAbs().maxCoeff() != 0;
+                if (agg && Rs.row(i).cwiseAbs().maxCoeff() > 1e-10) return vf::KS() << "level 0: near-null-space vector not reproduced on row " << i << " (distance " << Rs.row(i).cwiseAbs().maxCoeff() << " from the range of P_tent)";
+                bool has_nbr = false; for (int j = 0; j < Aprev.cols(); ++j) if (j != i && Aprev(i, j) != 0) has_nbr = true;
+                if (has_nbr && !agg) return vf::KS() << "level 0: unknown " << i << " has a strong neighbour but belongs to no aggregate";
+            }
+            // columns belonging to different aggregates have disjoint support: P^T P is block diagonal with blocks of size nullcols
+            Eigen::MatrixXd G2 = P.transpose() * P;
+            for (int a = 0; a < G2.rows(); ++a) for (int b = 0; b < G2.cols(); ++b) if (a / nullcols != b / nullcols && std::abs(G2(a, b)) > 1e-12) return vf::KS() << "level 0: tentative columns " << a << " and " << b << " of different aggregates overlap";
+            vf::count("nullspace_levels_checked");
+        }
+        if (plain && !nullcols) {
             // aggregation laws across rank boundaries (eps_strong = 0: every off-diagonal entry is a strong connection)
             for (int i = 0; i < P.rows(); ++i) {
                 int cnt = 0; double sum = 0; for (int j = 0; j < P.cols(); ++j) if (P(i, j) != 0) { ++cnt; sum += P(i, j); }
@@ -313,7 +344,7 @@ static std::string hier_once(const Sys &s, const Part &p, bool repart, const Env
             vf::count("aggregation_levels_checked");
         }
         Eigen::MatrixXd G = R * Aprev * P;
-        if (plain) G *= (double)(1 / 1.5f);       // scaled_galerkin(A, P, R, 1 / prm.over_interp) with float over_interp = 1.5f
+        if (plain && !nullcols) G *= (double)(1 / 1.5f); else if (plain) G *= (double)(1 / 1.5f);       // scaled_galerkin(A, P, R, 1 / prm.over_interp) with float over_interp = 1.5f
         // next level operator: from the next level's A (relaxation level) or, for the direct level, from the inverse
         Eigen::MatrixXd absG = R.cwiseAbs() * Aprev.cwiseAbs() * P.cwiseAbs();
         double tol = 8 * (Aprev.rows() + 4) * u * absG.maxCoeff();
@@ -352,12 +383,105 @@ static void run_hier_t(const char *cname) {
                 std::string v = hier_once<Coarsening>(s, p, repart, e, ce);
                 vf::count("executions"); vf::S().transitions += 1;
                 if (!v.empty()) { vf::fail(std::string("dhier.") + cname, key, vf::KS() << "schedule " << e.name << ": " << v); break; }
+                // near-null space with 2 and 3 vectors (block_size 1): tentative prolongation across rank boundaries
+                if (ce == 2 && !repart && s.n >= 25) for (int nc : {2, 3}) {
+                    v = hier_once<Coarsening>(s, p, repart, e, ce, nc);
+                    vf::count("executions"); vf::S().transitions += 1;
+                    if (!v.empty()) { vf::fail(std::string("dhier.nullspace.") + cname, key, vf::KS() << "nullspace cols=" << nc << " schedule " << e.name << ": " << v); break; }
+                }
                 if (k == 1) break;
             }
             vf::S().states += 1;
             if (k > 1) vf::nontrivial(vf::hstr(key));
         }
         vf::space(vf::KS() << "hierarchy extraction: " << cname << " x " << s.name << " x " << k << " ranks x partitions x repartition {off, merge} x coarse_enough {2, n/4}");
+    }
+}
+
+
+// ======================================================================================================
+// unit "sdd": subdomain deflation and block preconditioner (the remaining distributed solver kinds)
+typedef mpi::subdomain_deflation< runtime::preconditioner<B>, runtime::mpi::solver::wrapper<B>, mpi::direct::skyline_lu<double> > SDD;
+typedef mpi::make_solver< mpi::block_preconditioner< amgcl::amg<B, coarsening::smoothed_aggregation, relaxation::spai0> >, runtime::mpi::solver::wrapper<B> > BPSolver;
+
+static std::string sdd_once(const Sys &s, const Part &p, int ndv, const char *solver, const char *lrelax, int kind, const Env &e) {
+    int k = (int)p.size() - 1;
+    std::vector<double> f(s.n); for (int i = 0; i < s.n; ++i) f[i] = 1.0 + 0.25 * (i % 5);
+    SolveOut o; o.x.assign(s.n, 0); o.it.assign(k, 0); o.res.assign(k, 0); o.exc.assign(k, "");
+    set_env(e, nullptr, false);
+    try {
+        mm::run(k, [&](int r) {
+            try {
+                mpi::communicator comm(MPI_COMM_WORLD);
+                int rb = p[r], re = p[r + 1], nl = re - rb;
+                std::vector<ptrdiff_t> ptr(1, 0), col; std::vector<double> val;
+                for (int i = rb; i < re; ++i) { for (ptrdiff_t j = s.ptr[i]; j < s.ptr[i+1]; ++j) { col.push_back(s.col[j]); val.push_back(s.val[j]); } ptr.push_back((ptrdiff_t)col.size()); }
+                backend::numa_vector<double> fl(nl), xl(nl);
+                for (int i = 0; i < nl; ++i) { fl[i] = f[rb + i]; xl[i] = 0; }
+                size_t it; double res;
+                if (kind == 0) {
+                    SDD::params prm;
+                    prm.num_def_vec = ndv;
+                    double mid = 0.5 * (rb + re - 1), span = std::max(1, nl);
+                    // deflation vectors: constant, linear, quadratic in the (global) row index, per subdomain
+                    prm.def_vec = [=](ptrdiff_t i, unsigned j) -> double { double t = ((rb + i) - mid) / span; return j == 0 ? 1.0 : (j == 1 ? t : t * t - 0.25); };
+                    boost::property_tree::ptree lp; lp.put("class", "amg"); lp.put("relax.type", lrelax); lp.put("coarse_enough", 3);
+                    prm.local = lp;
+                    boost::property_tree::ptree sp; sp.put("type", solver); sp.put("tol", 1e-8); sp.put("maxiter", 200);
+                    prm.isolver = sp;
+                    SDD S(comm, std::make_tuple((size_t)nl, ptr, col, val), prm);
+                    std::tie(it, res) = S(fl, xl);
+                } else {
+                    boost::property_tree::ptree prm; prm.put("solver.type", solver); prm.put("solver.tol", 1e-8); prm.put("solver.maxiter", 200); prm.put("precond.coarse_enough", 3);
+                    BPSolver S(comm, std::make_tuple((size_t)nl, ptr, col, val), prm);
+                    std::tie(it, res) = S(fl, xl);
+                }
+                o.it[r] = it; o.res[r] = res;
+                for (int i = 0; i < nl; ++i) o.x[rb + i] = xl[i];
+            } catch (const vs::Deadlock &) { throw; }
+            catch (const std::exception &x) { o.exc[r] = x.what(); }
+        });
+    } catch (const vs::Deadlock &d) { return std::string("DEADLOCK: ") + d.what() + mm::where_all(); }
+    catch (const std::exception &x) { return std::string("exception escaped: ") + x.what(); }
+    for (int r = 0; r < k; ++r) if (!o.exc[r].empty()) return vf::KS() << "exception on rank " << r << ": " << o.exc[r];
+    for (int r = 1; r < k; ++r) if (o.it[r] != o.it[0] || std::memcmp(&o.res[r], &o.res[0], 8) != 0)
+        return vf::KS() << "rank " << r << " reports (" << o.it[r] << "," << o.res[r] << ") but rank 0 reports (" << o.it[0] << "," << o.res[0] << ")";
+    long double tr = 0, nf = 0, nx = 0;
+    for (int i = 0; i < s.n; ++i) { long double a = f[i]; for (ptrdiff_t j = s.ptr[i]; j < s.ptr[i+1]; ++j) a -= (long double)s.val[j] * o.x[s.col[j]]; tr += a * a; nf += (long double)f[i] * f[i]; nx += (long double)o.x[i] * o.x[i]; }
+    double trel = (double)std::sqrt(tr / nf);
+    // the reported value is the residual of the projected system; after the final correction the true residual of x
+    // equals it in exact arithmetic.  Rounding: the C01 bound, with kappa^2 for the extra coarse solve + projection.
+    double bound = 64 * 1.1102230246251565e-16 * (o.it[0] + 4) * std::sqrt((double)s.n) * s.kappa * s.kappa * (1 + s.normA * (double)std::sqrt(nx / nf));
+    if (!(std::abs(o.res[0] - trel) <= bound + 1e-12 * o.res[0])) return vf::KS() << "reported residual " << o.res[0] << " but assembled solution has true relative residual " << trel << " (bound " << bound << ", iters " << o.it[0] << ")";
+    if (!(o.res[0] < 1e-8)) return vf::KS() << "did not converge: iters " << o.it[0] << " residual " << o.res[0];
+    return "";
+}
+
+static void run_sdd() {
+    auto sys = systems();
+    for (auto &s : sys) for (int k = 1; k <= (vf::quick() ? 3 : 4); ++k) {
+        if (s.n < 12) continue;
+        std::vector<Part> parts = some_partitions(s.n, k);
+        for (auto &p : parts) {
+            // subdomain deflation needs non-empty subdomains (a deflation vector of an empty subdomain is the zero vector: singular coarse problem)
+            bool empty = false; for (int r = 0; r < k; ++r) empty |= p[r + 1] == p[r];
+            for (int kind = 0; kind < 2; ++kind) for (int ndv = 1; ndv <= (kind ? 1 : 3); ++ndv) for (auto sv : {"bicgstab", "gmres", "fgmres"}) for (auto lr : {"spai0", "ilu0"}) {
+                if (kind == 1 && std::string(lr) != "spai0") continue;
+                if (kind == 0 && empty) continue;
+                if (kind == 0) { int minrows = s.n; for (int r = 0; r < k; ++r) minrows = std::min(minrows, p[r + 1] - p[r]); if (minrows < ndv) continue; }   // fewer rows than deflation vectors: dependent vectors
+                std::string key = vf::KS() << "sd|" << (kind ? "block_preconditioner" : "sdd") << "|" << s.name << "|" << k << "|" << pshow(p) << "|" << ndv << "|" << sv << "|" << lr;
+                if (!vf::take([&]{ return key; })) continue;
+                for (auto &e : ENVS) {
+                    std::string v = sdd_once(s, p, ndv, sv, lr, kind, e);
+                    vf::count("executions"); vf::S().transitions += 1;
+                    if (!v.empty()) { vf::fail(kind ? "dsolve.block_preconditioner" : "dsolve.subdomain_deflation", key, vf::KS() << "schedule " << e.name << ": " << v); break; }
+                    if (k == 1) break;
+                }
+                vf::S().states += 1;
+                if (k > 1) vf::nontrivial(vf::hstr(key));
+            }
+        }
+        vf::space(vf::KS() << "subdomain deflation (1..3 deflation vectors: constant, linear, quadratic) and block preconditioner: " << s.name << " x " << k << " ranks x characteristic partitions x {bicgstab, gmres, fgmres} x local relaxation {spai0, ilu0}");
     }
 }
 
@@ -368,6 +492,8 @@ int main(int argc, char **argv) {
     vf::sample_str("hierarchy case: aggregation on grid5x5_c1, 3 ranks: every level operator extracted by distributed spmv on unit vectors; partition laws, R == P^T, A_c == R A P / 1.5, direct solver inverse");
 #ifdef C12_UNIT_HIER
     if (vf::section("h")) { run_hier_t< mpi::coarsening::aggregation<B> >("aggregation"); run_hier_t< mpi::coarsening::smoothed_aggregation<B> >("smoothed_aggregation"); }
+#elif defined(C12_UNIT_SDD)
+    if (vf::section("sd")) run_sdd();
 #else
     if (vf::section("sv") || vf::section("svx")) run_solve();
 #endif
